@@ -14,6 +14,8 @@ import (
 	"strconv"
 	"strings"
 	"time"
+
+	"github.com/uber-go/gopatch/patch"
 )
 
 type APIReq struct {
@@ -153,6 +155,27 @@ func cmdAPI(in, out string) error {
 			res.Out = o
 			if err != nil {
 				res.Err = err.Error()
+			}
+		case "parsepatch":
+			// patch.Parse only (under recover and a watchdog); Name is the patch file name
+			ch := make(chan string, 1)
+			go func() {
+				defer func() {
+					if x := recover(); x != nil {
+						ch <- fmt.Sprintf("panic:%v", x)
+					}
+				}()
+				if _, err := patch.Parse(r.Name, []byte(r.Patch)); err != nil {
+					ch <- err.Error()
+				} else {
+					ch <- ""
+				}
+			}()
+			select {
+			case e := <-ch:
+				res.Err = e
+			case <-time.After(10 * time.Second):
+				res.Err = "timeout"
 			}
 		case "parses":
 			if _, err := parser.ParseFile(token.NewFileSet(), "x.go", r.Src, parser.ParseComments); err != nil {
